@@ -19,12 +19,14 @@ CHECKS = [
     _c("C24",
        "Seeded search over operation histories and thread schedules: sequential histories are compared "
        "op-by-op with an executable LRU model; concurrent workloads of 2-16 real threads run one at a time "
-       "under a seeded baton scheduler that may pre-empt at every line of lru_cache.py, every lock operation "
-       "and every next() of a listing, with never-fails, capacity, deadlock and linearizability oracles. "
+       "under a seeded baton scheduler that may pre-empt at every line - in half of the runs every bytecode "
+       "instruction - of lru_cache.py, at every lock operation and every next() of a listing; clients also use the "
+       "cache while one of their own listings is open and abandon listings half way; never-fails, capacity, "
+       "deadlock and linearizability oracles. "
        "A clean batch is evidence over the sampled schedules, not proof.",
-       "Trusts CPython's OrderedDict C operations to be atomic under the GIL, and that pre-emption inside "
-       "lru_cache.py happens only at line boundaries and lock operations; the scheduler, the lock class and "
-       "the reference model are the checker's.",
+       "Trusts CPython's OrderedDict C operations to be atomic under the GIL; pre-emption inside lru_cache.py "
+       "happens at instruction or line boundaries and at lock operations, never inside a C call; the scheduler, "
+       "the lock class and the reference model are the checker's.",
        "deterministic simulation: seeded baton-passing thread scheduler + linearizability check against ModelLRU",
        "DESIGN.md section 4, C24"),
     _c("C23",
@@ -33,12 +35,16 @@ CHECKS = [
        "against the four caching loaders while sources are edited (mtime forward / unchanged / backward), "
        "deleted and recreated; every returned template is compared, in the loop step in which it returns, with "
        "what the corresponding non-caching loader returns for the same request over the same store (refinement), "
-       "with an interval-based freshness rule, cache well-formedness after every step, and a separate fault "
-       "configuration (store errors, errno faults, cancellation). A clean batch is evidence, not proof.",
+       "with an interval-based freshness rule, a delegate-priority rule for names living in several delegates of a "
+       "choice loader, cache well-formedness after every step, a separate fault configuration (store errors, errno "
+       "faults, cancellation), and a thread configuration (synchronous requests, edits and deletes from 1-5 baton "
+       "threads on thread-safe compositions of the caching mixin, pre-empted inside the loader modules). "
+       "A clean batch is evidence, not proof.",
        "Trusts asyncio's Task/Future semantics and FIFO ready queue; executor jobs are atomic at a seeded virtual "
-       "time; freshness is only demanded where the source supplies an uptodate callable; thread-level concurrency "
-       "on the template cache is not simulated here (the map's own thread safety is C24).",
-       "deterministic simulation: virtual-time asyncio loop + seeded executor/latency/cancellation + simulated storage; refinement against the non-caching loader",
+       "time; freshness is only demanded where the source supplies an uptodate callable; under threads request globals "
+       "are not judged (the cached template object is shared by design) and only the mixin composed with "
+       "thread_safe=True is driven (the built-in Caching* classes use the plain map).",
+       "deterministic simulation: virtual-time asyncio loop + seeded executor/latency/cancellation + simulated storage + baton-passed threads; refinement against the non-caching loader",
        "DESIGN.md section 4, C23"),
     _c("C22",
        "Seeded search over template names x sandbox trees x loader variants x schedules: every request through "
@@ -46,10 +52,12 @@ CHECKS = [
        "executor completion, direct and via include/render) is judged against an independent string-level "
        "resolver over a simulator-owned tmpfs tree whose every file carries a unique inside/outside token; a "
        "separate fault configuration injects errno faults and content edits at the k-th storage call of a request "
-       "and only relaxes 'may fail', never 'may return outside or wrong data'. Evidence over sampled names and "
-       "trees, not proof.",
-       "POSIX semantics on tmpfs; directory-backed packages only; the tree is static in the fault-free "
-       "configuration (check-then-open races against a concurrently mutated tree are outside the stated quantifier); "
+       "and only relaxes 'may fail', never 'may return outside or wrong data'; sequential histories and phased "
+       "concurrent histories mutate the tree between requests (files and directories swapped for links that leave "
+       "the root, shadowing, deletion, older and newer mtimes) and cancel requests in flight, each request being "
+       "judged against the tree as it is at that moment. Evidence over sampled names and trees, not proof.",
+       "POSIX semantics on tmpfs; directory-backed packages only; the tree changes only while no request is in "
+       "flight (check-then-open races against a concurrently mutated tree are outside the stated quantifier); "
        "the model resolver mirrors pathlib's documented suffix rule for 'ext'.",
        "deterministic simulation: simulator-owned storage with errno/edit fault plan + virtual-time asyncio loop; oracle = independent path resolver over unique content tokens",
        "DESIGN.md section 4, C22"),
@@ -59,36 +67,43 @@ CHECKS = [
        "entry point (render, get_template, analyze and its helpers, analyze_tags, Environment/convenience render) "
        "through dict/choice/file-system/package/custom loaders and their caching variants while loaders, executor "
        "jobs and async drops suspend for seeded durations and several tasks share one template object; each "
-       "result is compared with the synchronous result of the same operation when it returns. A sys.setprofile "
+       "result is compared with the synchronous result of the same operation when it returns; some callers cancel "
+       "their operation, some backing stores fail for some names (both APIs alike), and for the file-system loader a "
+       "second phase follows the appearance of override files in an earlier search directory. A sys.setprofile "
        "probe reports which of liquid's async defs were entered. Evidence over sampled scenarios, not proof.",
        "Exceptions compare by class; the sync API is trusted as the reference (a defect mirrored in both twins is "
-       "invisible); sources are static within a run; memory addresses and the sandbox directory name are blanked.",
+       "invisible); sources change only between the two phases of a run, with nothing in flight; memory addresses and "
+       "the sandbox directory name are blanked.",
        "deterministic simulation: virtual-time asyncio loop with seeded loader/executor/drop latency; refinement of the async API against the sync API",
        "DESIGN.md section 4, C01"),
     _c("C17",
-       "Seeded search over histories x schedules x clock: every history runs in a fork of a worker that never "
-       "renders anything, and EVERY render in it (sync, concurrent render_async with suspensions, implicit "
-       "environment) is compared with the outcome of the same (recipe, sources, data, simulated clock value) in a "
-       "pristine fork - a fresh process with no history - so module-level memoisation, state kept on nodes, "
-       "templates or environments, and leakage from aborted or cancelled renders all show as a difference; deep "
-       "type-tagged fingerprints check that data, parsed templates and environments are unchanged by a render. "
-       "Evidence over sampled histories, not proof.",
+       "Seeded search over histories x schedules x clock: EVERY render of a history (sync, concurrent render_async "
+       "with suspensions, implicit environment; after rejected parses, aborted and cancelled renders, clock jumps) "
+       "is compared with the outcome of the same (recipe, sources, data, simulated clock value) evaluated alone and "
+       "in another order in the worker's companion process - whose own history is different - and, for a sample, in "
+       "a pristine fork, a fresh process with no history at all; so module-level memoisation, state kept on nodes, "
+       "templates, parsers or environments, and leakage from aborted or cancelled operations all show as a "
+       "difference; deep type-tagged fingerprints check that data, parsed templates and environments are unchanged "
+       "by a render. Evidence over sampled histories, not proof.",
        "The pristine state is 'fresh interpreter after import liquid'; exceptions compare by class; sources are static "
-       "(reloads are carved out by the statement); interleaving at await granularity only; reference forks are "
-       "serialised system-wide in this sandbox (~70/s), which bounds the number of histories per minute.",
-       "deterministic simulation: history machine on a virtual-time loop with simulated wall clock, cancellation and failing drops; oracle = pristine-fork reference process + deep fingerprints",
+       "(reloads are carved out by the statement); interleaving at await granularity only; the pristine fork is used for "
+       "a 15 % sample because forks are serialised system-wide in this sandbox.",
+       "deterministic simulation: history machine on a virtual-time loop with simulated wall clock, cancellation and failing drops; oracle = companion process with a different history + pristine-fork reference + deep fingerprints",
        "DESIGN.md section 4, C17"),
     _c("C11",
        "Seeded search over histories of a process: environments with generated delimiter sets (lengths 1-4 over "
        "punctuation, letters and regex metacharacters, disjoint from the template content, pairwise non-colliding) - "
        "many sharing delimiters and mode but differing in tags, filters, flags and later mutations - are created, "
-       "used, mutated, dropped and flooded past the 128-entry memo caches in interleaved order; every parse/render "
-       "runs in a fork of a worker that never parsed anything and is compared (a) with the outcome in a pristine "
-       "fork where no other environment ever existed and (b) with the default-delimiter rewriting of the same tree "
-       "in an equally configured environment. Evidence over sampled histories, not proof.",
-       "No clock, I/O or scheduler is involved; the explored dimensions are order, liveness of configurations and memo "
-       "roll-over. Raw blocks hold plain text; the liquid tag's line-comment marker follows comment_start_string as "
-       "documented. Reference forks are serialised system-wide in this sandbox (~35-70/s).",
-       "deterministic simulation (history machine, no fault kinds apply): seeded operation histories over live configurations with a pristine-fork reference process as oracle",
+       "used, mutated, dropped, abandoned half-constructed and flooded past the 128-entry memo caches in interleaved "
+       "order - sequentially, from 2-3 baton threads pre-empted inside the lexer / parser / environment modules, and "
+       "as concurrent asyncio tasks of several environments on a virtual-time loop; every parse/render is compared "
+       "(a) with the outcome in a freshly built environment in the companion process (another history) and, for a "
+       "sample, in a pristine fork where no other environment ever existed, and (b) with the default-delimiter "
+       "rewriting of the same tree in an equally configured environment; a template of one environment embedded in "
+       "another's render must behave as on its own. Evidence over sampled histories, not proof.",
+       "No clock or I/O is involved; the explored dimensions are order, thread and task schedule, liveness of "
+       "configurations, failed constructions and memo roll-over. Raw blocks hold plain text; the liquid tag's "
+       "line-comment marker follows comment_start_string as documented.",
+       "deterministic simulation: seeded operation histories over live configurations (sequential, baton threads, asyncio tasks; construction faults) with a companion process and a pristine-fork reference process as oracle",
        "DESIGN.md section 4, C11"),
 ]
